@@ -193,6 +193,9 @@ func evalC(run *ev.Run, cases []*Case, count bool) (bad [][]int, details []strin
 		orc := &oracle{p: p}
 		for k, w := range pc[i].Inputs {
 			r := o.Results[k]
+			if r.Skipped {
+				continue
+			}
 			want, known := orc.member(w)
 			if !known {
 				continue
